@@ -1,37 +1,72 @@
 import FiberModel.C04.Known
-import FiberModel.C04.PathLemmas
+import FiberModel.C04.FieldLemmas
 /-
 C04 — from the stacks the code builds (merging, placeholders, splice, renumbering) to a
-denotation: per method, the list of (use, Path, handler) entries a definition tree registers.
+denotation: per method, the list of (use, registration path, handler) entries a definition tree
+registers. The registration path is kept in the canonical form `canon` (empty, or with its leading
+slash): that is all `getGroupPath`, `register` and `addRoute`'s merge read of `Route.pathOrig`.
 -/
 namespace C04
 open B
 
-def entriesOf (r : Route) : List Entry := r.handlers.map fun h => (r.use, r.raw, h)
+/-- the canonical registration path of a route, read off the two fields `addRoute` compares -/
+def keyOf (r : Route) : Bytes := if r.orig = [] then [] else r.raw
+
+/-- per-handler entries of a route: (use, canonical registration path, handler) -/
+def entriesOf (r : Route) : List Entry := r.handlers.map fun h => (r.use, keyOf r, h)
 
 def mapRaw (T : Bytes → Bytes) (e : Entry) : Entry := (e.1, T e.2.1, e.2.2)
 
-@[simp] theorem expand_nil : expand [] = [] := rfl
-theorem expand_cons (r : Route) (l : List Route) : expand (r :: l) = entriesOf r ++ expand l := by
-  simp [expand, entriesOf]
-theorem expand_append (a b : List Route) : expand (a ++ b) = expand a ++ expand b := by
-  simp [expand]
+/-- per-handler entries of a stack, keyed by the canonical registration path -/
+def expandK (l : List Route) : List Entry := l.flatMap entriesOf
 
-theorem expand_map_addPrefix (cfg : Cfg) (po : Bytes → List Bytes) (raw : Bytes) (l : List Route) :
-    expand (l.map (addPrefix cfg po raw)) = (expand l).map (mapRaw (getGroupPath raw)) := by
+@[simp] theorem expandK_nil : expandK [] = [] := rfl
+theorem expandK_cons (r : Route) (l : List Route) : expandK (r :: l) = entriesOf r ++ expandK l := by
+  simp [expandK]
+theorem expandK_append (a b : List Route) : expandK (a ++ b) = expandK a ++ expandK b := by
+  simp [expandK]
+
+theorem keyOf_eq_canon {r : Route} (h : r.raw = rawOf r.orig) : keyOf r = canon r.orig := by
+  unfold keyOf canon; rw [h]
+
+/-- the Path is the canonical registration path with "" read as "/" -/
+theorem expand_eq_expandK {l : List Route} (h : ∀ r ∈ l, r.raw = rawOf r.orig) :
+    expand l = (expandK l).map (mapRaw rawOf) := by
   induction l with
   | nil => rfl
   | cons r t ih =>
-    rw [List.map_cons, expand_cons, expand_cons, List.map_append, ih]
-    congr 1
-    simp [entriesOf, addPrefix, mapRaw]
+    have hr := h r (by simp)
+    have ht := ih (fun x hx => h x (List.mem_cons_of_mem _ hx))
+    rw [expandK_cons, List.map_append, ← ht]
+    have : r.raw = rawOf (keyOf r) := by
+      rw [keyOf_eq_canon hr, rawOf_canon]; exact hr
+    simp only [expand, List.flatMap_cons, entriesOf, List.map_map, Function.comp_def, mapRaw]
+    rw [← this]
 
-theorem expand_renum (c : Nat) (l : List Route) : expand (renum c l) = expand l := by
+theorem keyOf_addPrefix (cfg : Cfg) (po : Bytes → List Bytes) (pre : Bytes) {r : Route}
+    (h : r.raw = rawOf r.orig) :
+    keyOf (addPrefix cfg po pre r) = canon (getGroupPath pre (keyOf r)) := by
+  rw [keyOf_eq_canon h, ggp_canon]
+  rfl
+
+theorem expandK_map_addPrefix (cfg : Cfg) (po : Bytes → List Bytes) (pre : Bytes) (l : List Route)
+    (h : ∀ r ∈ l, r.raw = rawOf r.orig) :
+    expandK (l.map (addPrefix cfg po pre)) = (expandK l).map (mapRaw fun κ => canon (getGroupPath pre κ)) := by
+  induction l with
+  | nil => rfl
+  | cons r t ih =>
+    rw [List.map_cons, expandK_cons, expandK_cons, List.map_append, ih (fun x hx => h x (List.mem_cons_of_mem _ hx))]
+    congr 1
+    have hk := keyOf_addPrefix cfg po pre (h r (by simp))
+    simp only [entriesOf, List.map_map, Function.comp_def, mapRaw, hk]
+    rfl
+
+theorem expandK_renum (c : Nat) (l : List Route) : expandK (renum c l) = expandK l := by
   induction l generalizing c with
   | nil => rfl
   | cons r t ih =>
     simp only [renum]
-    rw [expand_cons, expand_cons, ih]
+    rw [expandK_cons, expandK_cons, ih]
     rfl
 
 theorem splice_append (cfg : Cfg) (po : Bytes → List Bytes) (k : Nat) (a b : List Slot) :
@@ -41,27 +76,36 @@ theorem splice_append (cfg : Cfg) (po : Bytes → List Bytes) (k : Nat) (a b : L
   | cons s t ih =>
     cases s with
     | route r => simp [splice, ih]
-    | mount raw sub => simp [splice, ih]
+    | mount raw pre sub => simp [splice, ih]
 
 /-- entries of a stack under construction (kept newest first) -/
 def expandS (cfg : Cfg) (po : Bytes → List Bytes) (k : Nat) (l : List Slot) : List Entry :=
-  expand (splice cfg po k l.reverse)
+  expandK (splice cfg po k l.reverse)
 
 @[simp] theorem expandS_nil (cfg : Cfg) (po : Bytes → List Bytes) (k : Nat) : expandS cfg po k [] = [] := rfl
 
 theorem expandS_cons_route (cfg : Cfg) (po : Bytes → List Bytes) (k : Nat) (r : Route) (l : List Slot) :
     expandS cfg po k (.route r :: l) = expandS cfg po k l ++ entriesOf r := by
   unfold expandS
-  rw [List.reverse_cons, splice_append, expand_append]
-  simp [splice, expand_cons]
+  rw [List.reverse_cons, splice_append, expandK_append]
+  simp [splice, expandK_cons]
 
-theorem expandS_cons_mount (cfg : Cfg) (po : Bytes → List Bytes) (k : Nat) (raw : Bytes)
-    (sub : Nat → List Route) (l : List Slot) :
-    expandS cfg po k (.mount raw sub :: l) =
-      expandS cfg po k l ++ (expand (sub k)).map (mapRaw (getGroupPath raw)) := by
+/-- what a mounted app's table contributes: its entries, each registration path prefixed the way
+`getGroupPath` prefixes a path under a group -/
+def prefixK (pre : Bytes) (κ : Bytes) : Bytes := canon (getGroupPath pre κ)
+
+/-- the sub-app tables a placeholder may hold: every route's Path is its registration path normalised -/
+def SubOK (sub : Nat → List Route) : Prop := ∀ k, ∀ r ∈ sub k, r.raw = rawOf r.orig
+
+theorem expandS_cons_mount (cfg : Cfg) (po : Bytes → List Bytes) (k : Nat) (raw pre : Bytes)
+    (sub : Nat → List Route) (hsub : SubOK sub) (l : List Slot) :
+    expandS cfg po k (.mount raw pre sub :: l) =
+      expandS cfg po k l ++ (expandK (sub k)).map (mapRaw (prefixK pre)) := by
   unfold expandS
-  rw [List.reverse_cons, splice_append, expand_append]
-  simp [splice, expand_map_addPrefix]
+  rw [List.reverse_cons, splice_append, expandK_append]
+  simp only [splice, List.append_nil]
+  rw [expandK_map_addPrefix cfg po pre (sub k) (hsub k)]
+  rfl
 
 /-- `addRoute`'s merge is invisible per handler -/
 theorem expandS_pushRoute (cfg : Cfg) (po : Bytes → List Bytes) (k : Nat) (l : List Slot) (r : Route) (c : Nat) :
@@ -69,12 +113,22 @@ theorem expandS_pushRoute (cfg : Cfg) (po : Bytes → List Bytes) (k : Nat) (l :
   unfold pushRoute
   split
   · rename_i p t
-    by_cases h : p.raw = r.raw ∧ p.use = r.use
-    · simp only [h, and_self, if_true]
+    by_cases h : p.raw = r.raw ∧ (p.orig == []) = (r.orig == []) ∧ p.use = r.use
+    · rw [if_pos h]
       rw [expandS_cons_route, expandS_cons_route, List.append_assoc]
       congr 1
-      simp [entriesOf, h.1, h.2]
-    · simp only [h, if_false]
+      have hk : keyOf p = keyOf r := by
+        unfold keyOf
+        have h2 := h.2.1
+        by_cases hp : p.orig = []
+        · have : r.orig = [] := by simpa [hp] using h2
+          simp [hp, this]
+        · have : r.orig ≠ [] := by
+            intro e; rw [e] at h2; simp [hp] at h2
+          simp [hp, this, h.1]
+      simp only [entriesOf, List.map_append]
+      rw [show keyOf { p with handlers := p.handlers ++ r.handlers } = keyOf p from rfl, hk, h.2.2]
+    · rw [if_neg h]
       rw [expandS_cons_route]; rfl
   · rw [expandS_cons_route]; rfl
 
@@ -111,25 +165,25 @@ theorem regMany_mounted (ms : List Nat) (r : Route) (st : St) : (regMany ms r st
     have : regMany (m :: ms) r st = regMany ms r (addRoute m r st) := rfl
     rw [this, ih]; rfl
 
-theorem expandS_addMount (cfg : Cfg) (po : Bytes → List Bytes) (k m : Nat) (raw : Bytes)
-    (sub : Nat → List Route) (st : St) :
-    expandS cfg po k ((addMount m raw sub st).stacks k) =
+theorem expandS_addMount (cfg : Cfg) (po : Bytes → List Bytes) (k m : Nat) (raw pre : Bytes)
+    (sub : Nat → List Route) (hsub : SubOK sub) (st : St) :
+    expandS cfg po k ((addMount m raw pre sub st).stacks k) =
       expandS cfg po k (st.stacks k) ++
-        (if k = m then (expand (sub k)).map (mapRaw (getGroupPath raw)) else []) := by
+        (if k = m then (expandK (sub k)).map (mapRaw (prefixK pre)) else []) := by
   unfold addMount
   by_cases h : k = m
-  · subst h; simp [expandS_cons_mount]
+  · subst h; simp [expandS_cons_mount _ _ _ _ _ _ hsub]
   · simp [h]
 
-theorem expandS_foldl_addMount (cfg : Cfg) (po : Bytes → List Bytes) (k : Nat) (ms : List Nat) (raw : Bytes)
-    (sub : Nat → List Route) (st : St) :
-    expandS cfg po k ((ms.foldl (fun st m => addMount m raw sub st) st).stacks k) =
+theorem expandS_foldl_addMount (cfg : Cfg) (po : Bytes → List Bytes) (k : Nat) (ms : List Nat) (raw pre : Bytes)
+    (sub : Nat → List Route) (hsub : SubOK sub) (st : St) :
+    expandS cfg po k ((ms.foldl (fun st m => addMount m raw pre sub st) st).stacks k) =
       expandS cfg po k (st.stacks k) ++
-        (List.replicate (ms.count k) ((expand (sub k)).map (mapRaw (getGroupPath raw)))).flatten := by
+        (List.replicate (ms.count k) ((expandK (sub k)).map (mapRaw (prefixK pre)))).flatten := by
   induction ms generalizing st with
   | nil => simp
   | cons m ms ih =>
-    rw [List.foldl_cons, ih, expandS_addMount, List.count_cons, List.append_assoc]
+    rw [List.foldl_cons, ih, expandS_addMount _ _ _ _ _ _ _ hsub, List.count_cons, List.append_assoc]
     congr 1
     by_cases h : k = m
     · subst h; simp [replicate_flatten_succ]
@@ -159,49 +213,52 @@ theorem replicate_if_flatten {α} (c : Prop) [Decidable c] (e : List α) :
     (List.replicate (if c then 1 else 0) e).flatten = if c then e else [] := by
   by_cases h : c <;> simp [h]
 
-theorem expandS_regMount (cfg : Cfg) (po : Bytes → List Bytes) (k : Nat) (raw : Bytes)
-    (sub : Nat → List Route) (st : St) :
-    expandS cfg po k ((regMount raw sub st).stacks k) =
+theorem expandS_regMount (cfg : Cfg) (po : Bytes → List Bytes) (k : Nat) (raw pre : Bytes)
+    (sub : Nat → List Route) (hsub : SubOK sub) (st : St) :
+    expandS cfg po k ((regMount raw pre sub st).stacks k) =
       expandS cfg po k (st.stacks k) ++
-        (if k < nMethods then (expand (sub k)).map (mapRaw (getGroupPath raw)) else []) := by
+        (if k < nMethods then (expandK (sub k)).map (mapRaw (prefixK pre)) else []) := by
   unfold regMount
   simp only
-  rw [expandS_foldl_addMount, count_allMethods, replicate_if_flatten]
+  rw [expandS_foldl_addMount _ _ _ _ _ _ _ hsub, count_allMethods, replicate_if_flatten]
 
-theorem expand_finish (cfg : Cfg) (po : Bytes → List Bytes) (st : St) (k : Nat) :
-    expand (finish cfg po st k) = expandS cfg po k (st.stacks k) := by
+theorem expandK_finish (cfg : Cfg) (po : Bytes → List Bytes) (st : St) (k : Nat) :
+    expandK (finish cfg po st k) = expandS cfg po k (st.stacks k) := by
   unfold finish
   by_cases h : st.mounted = true
-  · simp only [h, if_true]; rw [expand_renum]; rfl
+  · simp only [h, if_true]; rw [expandK_renum]; rfl
   · simp only [h, Bool.false_eq_true, if_false]; rfl
+
+/-- a finished sub-app table is a table a placeholder may hold -/
+theorem subOK_flatten (cfg : Cfg) (po : Bytes → List Bytes) (items : List Item) :
+    SubOK (flatten cfg po items) :=
+  fun k r hr => (routeOK_flatten cfg po items k r hr).2.2.2.2.2.1
 
 /-! ### the denotation of a definition tree -/
 
-/-- handlers `hs` registered `n` times at Path `raw` -/
-def regEntries (use : Bool) (raw : Bytes) (n : Nat) (hs : List Nat) : List Entry :=
-  (List.replicate n hs).flatten.map fun h => (use, raw, h)
+/-- handlers `hs` registered `n` times at the registration path `κ` -/
+def regEntries (use : Bool) (κ : Bytes) (n : Nat) (hs : List Nat) : List Entry :=
+  (List.replicate n hs).flatten.map fun h => (use, κ, h)
 
 mutual
-/-- entries (use, Path, handler) that an item registers on method `k`, in order; `c` = prefix of
-the group the item is registered on (`none`: the app itself). A mounted app contributes its own
-entries with the placeholder's Path in front. -/
+/-- entries (use, canonical registration path, handler) that an item registers on method `k`, in
+order; `c` = prefix of the group the item is registered on (`none`: the app itself). A mounted app
+contributes its own entries, each path prefixed with the mount prefix as given. -/
 def denItem (c : Option Bytes) (k : Nat) : Item → List Entry
-  | .route ms p hs => regEntries false (rawOf (regPath c p)) (ms.count k) hs
-  | .use p hs => regEntries true (rawOf (regPath c p)) (if k < nMethods then 1 else 0) hs
+  | .route ms p hs => regEntries false (canon (regPath c p)) (ms.count k) hs
+  | .use p hs => regEntries true (canon (regPath c p)) (if k < nMethods then 1 else 0) hs
   | .group p hs items =>
-    regEntries true (rawOf (regPath c p)) (if k < nMethods then 1 else 0) hs
+    regEntries true (canon (regPath c p)) (if k < nMethods then 1 else 0) hs
       ++ denItems (some (regPath c p)) k items
   | .mount p _ sub =>
-    if k < nMethods then
-      (denItems none k sub).map (mapRaw (getGroupPath (rawOf (mountPath (regPath c p)))))
-    else []
+    if k < nMethods then (denItems none k sub).map (mapRaw (prefixK (regPath c p))) else []
 def denItems (c : Option Bytes) (k : Nat) : List Item → List Entry
   | [] => []
   | i :: is => denItem c k i ++ denItems c k is
 end
 
 theorem entriesOf_mkRoute (cfg : Cfg) (po : Bytes → List Bytes) (use : Bool) (p : Bytes) (hs : List Nat) :
-    entriesOf (mkRoute cfg po use p hs) = hs.map fun h => (use, rawOf p, h) := rfl
+    entriesOf (mkRoute cfg po use p hs) = hs.map fun h => (use, canon p, h) := rfl
 
 theorem replicate_entries (n : Nat) (use : Bool) (raw : Bytes) (hs : List Nat) :
     (List.replicate n (hs.map fun h => ((use, raw, h) : Entry))).flatten = regEntries use raw n hs := by
@@ -236,7 +293,8 @@ theorem buildItem_den (cfg : Cfg) (po : Bytes → List Bytes) (c : Option Bytes)
       rw [expandS_regMany, entriesOf_mkRoute, replicate_entries, count_allMethods, List.append_assoc]
   | .mount p scfg sub, st => by
     simp only [buildItem, denItem]
-    rw [expandS_regMount, expand_finish, buildItems_den scfg po none k sub St.init]
+    have hsub : SubOK (finish scfg po (buildItems scfg po none sub St.init)) := subOK_flatten scfg po sub
+    rw [expandS_regMount _ _ _ _ _ _ hsub, expandK_finish, buildItems_den scfg po none k sub St.init]
     simp [St.init]
 theorem buildItems_den (cfg : Cfg) (po : Bytes → List Bytes) (c : Option Bytes) (k : Nat) :
     ∀ (is : List Item) (st : St),
@@ -248,11 +306,16 @@ theorem buildItems_den (cfg : Cfg) (po : Bytes → List Bytes) (c : Option Bytes
 end
 
 /-- The table the code builds (merges, placeholders, splice, renumbering) lists, per handler, exactly
-the entries of the definition tree's denotation. -/
-theorem expand_flatten (cfg : Cfg) (po : Bytes → List Bytes) (items : List Item) (k : Nat) :
-    expand (flatten cfg po items k) = denItems none k items := by
+the entries of the definition tree's denotation (keyed by the canonical registration path). -/
+theorem expandK_flatten (cfg : Cfg) (po : Bytes → List Bytes) (items : List Item) (k : Nat) :
+    expandK (flatten cfg po items k) = denItems none k items := by
   unfold flatten
-  rw [expand_finish, buildItems_den]
+  rw [expandK_finish, buildItems_den]
   simp [St.init]
+
+/-- … and with it the (use, Path, handler) entries: the Path is the registration path normalised -/
+theorem expand_flatten (cfg : Cfg) (po : Bytes → List Bytes) (items : List Item) (k : Nat) :
+    expand (flatten cfg po items k) = (denItems none k items).map (mapRaw rawOf) := by
+  rw [expand_eq_expandK (subOK_flatten cfg po items k), expandK_flatten]
 
 end C04
